@@ -5,7 +5,7 @@
    loop of gather.go); S = the ONNX index formulas (Check/CheckC08.v: Slice-13 clamping rules, Gather
    formula, two-way broadcast, concatenation, permutation). *)
 From Coq Require Import List ZArith Bool String.
-From V Require Import DType Tensor Case OpCheck BroadcastProofs IndexOps CheckC08 ShapeOpsProofs IndexOpsProofs GatherLoop GatherLoopProofs C08TransposeFormula C08ConcatShape C08TransposeGuard.
+From V Require Import DType Tensor Case OpCheck BroadcastProofs IndexOps CheckC08 ShapeOpsProofs IndexOpsProofs GatherLoop GatherLoopProofs C08TransposeFormula C08ConcatShape C08TransposeGuard C08TransposeIdentity.
 Import ListNotations.
 
 (* For EVERY case of the five operators -- any rank, any positive extents, any attributes and operand
@@ -73,6 +73,12 @@ Theorem C08_transpose_formula_covers_spec t p :
   (let q := rev (seq 0 (List.length (sh t))) in
    List.length q = List.length (sh t) /\ NoDup q /\ forall a, In a q -> (a < List.length (sh t))%nat).
 Proof. exact (conj (perm_ok_hyps t p) (default_perm_hyps t)). Qed.
+
+(* an algebraic law of that value: the identity permutation leaves a well-formed tensor of any rank
+   unchanged -- shape, element type and every element *)
+Theorem C08_transpose_identity t : List.length (pl t) = numel (sh t) ->
+  transpose_value t (seq 0 (List.length (sh t))) = t.
+Proof. exact (transpose_identity t). Qed.
 
 (* the value S prescribes for Concat (concat_value), for ANY number of inputs and any axis of the
    first input: the extent along the axis is the sum of all inputs' extents there, every other
